@@ -408,7 +408,8 @@ def twoNodesTwoEdges : St := applyAll St.empty [.createNode 0 0, .createNode 0 0
     `delete_edge(e)` names an id handed out BEFORE the concurrent phase (`e ≤ s0.ne`; the edge need
     not exist).  Outside: node deletion and the update of an edge being deleted (the two remaining
     witnesses below), and deleting an edge whose `create_edge` has not returned yet (the id can only
-    be guessed).  `quiescent_wf_partial` adds `update_node`, `add_label`, `remove_label` and `update_edge`. -/
+    be guessed).  `quiescent_wf_partial` adds `create_node`, `update_node`, `add_label`, `remove_label`
+    and `update_edge`. -/
 theorem adjacency_rmw_atomic (s0 : St) (h : Inv s0) (programs : List (List Op))
     (hadm : ∀ ops ∈ programs, ∀ op ∈ ops, op.adm s0.ne) : QuiescentWF s0 programs :=
   quiescentWF_of_adm s0 h programs hadm
@@ -454,17 +455,6 @@ theorem update_edge_delete_edge_race_witness :
   exact absurd h1 (by decide)
 
 
-/-- `create_node` writes the node record FIRST and initialises the two adjacency lists afterwards.
-    A `create_edge(1, 3)` that sees node 3 between the two (the id can be guessed, or discovered by a
-    scan: `node:3` is already stored) appends edge 1 to `node:3:in`; `create_node` then overwrites
-    that list with the empty one: edge 1 exists, its target does not list it. -/
-theorem create_node_create_edge_race_witness :
-    ¬ QuiescentWF twoNodes [[.createNode 0 0], [.createEdge 1 3 true 0 0]] := by
-  intro h
-  have hw := h [0, 0, 1, 1, 1, 1, 1, 1, 1, 1, 0, 0] (by decide)
-  have h1 := (hw.edge_listed 1 ⟨1, 3, true, 0, 0⟩ (by decide)).2.2.2.1
-  exact absurd h1 (by decide)
-
 /-- `create_edge` writes the edge record FIRST and the list entries afterwards.  A `delete_edge(1)`
     that finds the record in between (guessed id, or discovered by `all_edges`) cleans lists that do
     not mention the edge yet and deletes the record; `create_edge` then adds the entries: both lists
@@ -481,7 +471,21 @@ theorem delete_edge_of_edge_in_creation_race_witness :
     decide
   rw [hn] at hr; exact absurd hr (by simp)
 
-/-! ### regression witnesses: the code before the list lock (`Op.progOld`, `…Old` programs) -/
+/-! ### regression witnesses: the code before the list lock (`Op.progOld`, `…Old` programs) and
+    before `create_node` wrote its lists first (`Op.progNodeFirst`, `createNodeFromOld`) -/
+
+/-- Code before e23bf6c3: `create_node` wrote the node record FIRST and initialised the two adjacency
+    lists afterwards.  A `create_edge(1, 3)` that sees node 3 between the two (the id can be guessed,
+    or discovered by a scan: `node:3` is already stored) appends edge 1 to `node:3:in`; `create_node`
+    then overwrites that list with the empty one: edge 1 exists, its target does not list it.
+    (Class graph_engine.create_node/lists_initialised_after_node_visible; with the code as it is now
+    the same thread set is covered by `quiescent_wf_partial`, see the examples there.) -/
+theorem create_node_create_edge_race_old_witness :
+    ¬ QuiescentWFNodeFirst twoNodes [[.createNode 0 0], [.createEdge 1 3 true 0 0]] := by
+  intro h
+  have hw := h [0, 0, 1, 1, 1, 1, 1, 1, 1, 1, 0, 0] (by decide)
+  have h1 := (hw.edge_listed 1 ⟨1, 3, true, 0, 0⟩ (by decide)).2.2.2.1
+  exact absurd h1 (by decide)
 
 /-- Lost update on the adjacency list of a hub, code before 81b9c5b4: two `create_edge(1,2)` both
     read `node:1:out` (empty), both write it; edge 1 exists but node 1 does not list it. -/
@@ -525,19 +529,21 @@ theorem delete_node_parallel_path_lost_removal_witness :
     `create_edge`, `delete_edge`, `update_node`, `add_label`, `remove_label` and `update_edge`
     operations from any reachable store: for EVERY interleaving the list locks allow, once all threads
     have finished the store is well-formed.
+    `create_node` and `create_edge` take ANY arguments — in particular `create_edge(a, b)` may name a
+    node whose `create_node` is still running in another thread (guessed id, or one discovered by a
+    scan): since /repo e23bf6c3 `create_node` writes the node's two empty lists before the record that
+    makes the node visible, so whoever sees the node appends to lists that are not written again
+    (before that commit: `create_node_create_edge_race_old_witness`).
     Conditions (`Admissible`): a `delete_edge(e)` / `update_edge(e)` names an id handed out before the
     concurrent phase; no `update_edge(e)` runs in a phase in which some thread has a `delete_edge(e)`
-    (anywhere in its list); and IF some thread creates nodes in the phase, every `create_edge(a, b)` of
-    the phase is between nodes that existed before it (`a, b ≤ s0.nn`; without a `create_node` in the
-    phase the arguments of `create_edge` are arbitrary).
+    (anywhere in its list).
     What is missing w.r.t. the full statement, which is false:
     * `delete_node` next to anything that touches the node or its edges
       (`create_edge_delete_node_race_witness`),
     * `update_edge(e)` next to `delete_edge(e)` (`update_edge_delete_edge_race_witness`),
-    * `create_edge` to a node whose `create_node` is still running
-      (`create_node_create_edge_race_witness`), `delete_edge` of an edge whose `create_edge` is still
-      running (`delete_edge_of_edge_in_creation_race_witness`): operations on ids handed out DURING
-      the phase, which a client can only guess or discover by a scan,
+    * `delete_edge` of an edge whose `create_edge` is still running
+      (`delete_edge_of_edge_in_creation_race_witness`): an id handed out DURING the phase, which a
+      client can only guess or discover by a scan,
     * the batch calls (sequential theorems only).
     For operation sets with disjoint footprints see `quiescent_wf_disjoint_partial`. -/
 theorem quiescent_wf_partial (s0 : St) (h : Inv s0) (programs : List (List Op))
@@ -555,23 +561,79 @@ example : QuiescentWF twoNodesTwoEdges
     rcases hops with rfl | rfl | rfl <;> simp at hop
     · rcases hop with rfl | rfl
       · refine ⟨by decide, ?_⟩; simp
-      · exact Or.inl ⟨by decide, by decide⟩
+      · trivial
     · rcases hop with rfl | rfl | rfl
       · show 2 ≤ twoNodesTwoEdges.ne; decide
       · trivial
       · trivial
     · rcases hop with rfl | rfl | rfl
-      · exact Or.inl ⟨by decide, by decide⟩
+      · trivial
       · trivial
       · trivial)
 
-/-- … and without a `create_node` in the phase `create_edge` may name any node, e.g. one that does
-    not exist -/
+/-- … `create_edge` may name any node, e.g. one that does not exist -/
 example : QuiescentWF twoNodes [[.createEdge 1 7 true 0 0], [e12]] :=
   quiescent_wf_partial _ (wf_preserved _ _ inv_empty).1 _ (by
     intro ops hops op hop
     simp at hops
-    rcases hops with rfl | rfl <;> simp at hop <;> subst hop <;> exact Or.inr (by simp [e12]))
+    rcases hops with rfl | rfl <;> simp at hop <;> subst hop <;> trivial)
+
+/-- What e23bf6c3 makes true, stated on its own: any number of threads running any lists of
+    `create_node` and `create_edge` operations with ANY arguments (edges to nodes that do not exist
+    yet, that are being created right now by another thread, self-loops, undirected), from any
+    reachable store, under EVERY interleaving: the store is well-formed once all have finished. -/
+theorem create_node_create_edge_any_interleaving (s0 : St) (h : Inv s0) (programs : List (List Op))
+    (hops : ∀ ops ∈ programs, ∀ op ∈ ops, (∃ l v, op = .createNode l v) ∨ (∃ a b d ty v, op = .createEdge a b d ty v)) :
+    QuiescentWF s0 programs :=
+  quiescent_wf_partial s0 h programs (by
+    intro ops ho op hop
+    rcases hops ops ho op hop with ⟨l, v, rfl⟩ | ⟨a, b, d, ty, v, rfl⟩ <;> trivial)
+
+/-- non-vacuity: the thread set of `create_node_create_edge_race_old_witness` satisfies the hypotheses … -/
+example : QuiescentWF twoNodes [[.createNode 0 0], [.createEdge 1 3 true 0 0]] :=
+  create_node_create_edge_any_interleaving _ (wf_preserved _ _ inv_empty).1 _ (by
+    intro ops hops op hop
+    simp at hops
+    rcases hops with rfl | rfl <;> simp at hop <;> subst hop
+    · exact Or.inl ⟨_, _, rfl⟩
+    · exact Or.inr ⟨_, _, _, _, _, rfl⟩)
+
+/-- … the old witness schedule is a complete schedule of the code as it is now: `create_edge(1, 3)`
+    runs while `create_node` has written `node:3:out` only, does not see node 3 and answers
+    NodeNotFound; the store is well-formed -/
+example : allFinished (runSched [[.createNode 0 0], [.createEdge 1 3 true 0 0]]
+      [0, 0, 1, 1, 1, 1, 1, 1, 1, 1, 0, 0] twoNodes).1 = true ∧
+    ((runSched [[.createNode 0 0], [.createEdge 1 3 true 0 0]]
+      [0, 0, 1, 1, 1, 1, 1, 1, 1, 1, 0, 0] twoNodes).1.map fun t =>
+        match t.cur with | some (.done r) => some r | _ => none) =
+      [some (.id 3), some (.nodeNotFound 3)] ∧
+    wfCheck (runSched [[.createNode 0 0], [.createEdge 1 3 true 0 0]]
+      [0, 0, 1, 1, 1, 1, 1, 1, 1, 1, 0, 0] twoNodes).2 = none := by
+  refine ⟨by decide, ?_, by decide⟩
+  decide
+
+/-- … and when `create_edge(1, 3)` runs after the LAST store call of `create_node` (the record) it
+    finds node 3 and both lists: edge 1 is listed by node 3 -/
+example : allFinished (runSched [[.createNode 0 0], [.createEdge 1 3 true 0 0]]
+      [0, 0, 0, 0, 1, 1, 1, 1, 1, 1, 1, 1] twoNodes).1 = true ∧
+    inL (runSched [[.createNode 0 0], [.createEdge 1 3 true 0 0]]
+      [0, 0, 0, 0, 1, 1, 1, 1, 1, 1, 1, 1] twoNodes).2.kv 3 = [1] := by
+  decide
+
+/-- The order of `create_node`'s three store calls (e23bf6c3), for every id, payload and store: after
+    the first two calls the two list keys hold the empty list and the visibility of the node is what
+    it was; only the third call makes the node visible, and it ends the operation. -/
+theorem create_node_record_written_last (id l v : Nat) (s : St) :
+    let c1 := (createNodeFrom id l v).step s
+    let c2 := c1.1.step c1.2
+    let c3 := c2.1.step c2.2
+    nodeEx c1.2.kv id = nodeEx s.kv id ∧ nodeEx c2.2.kv id = nodeEx s.kv id ∧
+    c2.2.kv (.out id) = some (.list []) ∧ c2.2.kv (.inn id) = some (.list []) ∧
+    c3.2.kv (.out id) = some (.list []) ∧ c3.2.kv (.inn id) = some (.list []) ∧
+    nodeEx c3.2.kv id = true ∧ c3.1 = .done (.id id) := by
+  simp [createNodeFrom, Prog.step, upd, nodeEx]
+
+example : nodeEx ((createNodeFrom 3 0 0).step twoNodes).2.kv 3 = false := by decide
 
 /-! ### concurrent: operation sets with pairwise disjoint footprints (any operations) -/
 
